@@ -185,9 +185,9 @@ def case(ck, i):
         except L.OutputError:
             pass
         except Exception as e:
-            viol(L.crash_key(e, f"{name}:apply-crash:{MODE_NAME[mode]}"),
+            viol(L.crash_key(e, f"{name}:apply-crash"),
                  f"{name}.apply raised {type(e).__name__} in advertised mode {MODE_NAME[mode]}: "
-                 f"{str(e).strip()[-200:]}", config=spec["desc"], tb=L.short_tb(e))
+                 f"{str(e).strip()[-200:]}", config=spec["desc"], tb=L.short_tb(e), mode=MODE_NAME[mode])
 
     def compare(A, B, key, what, tol, counter):
         dev, n = L.mdev(A, B)
@@ -292,9 +292,9 @@ def case(ck, i):
         except L.OutputError:
             pass
         except Exception as e:
-            viol(L.crash_key(e, f"{name}:apply-crash:{MODE_NAME[mode]}"),
+            viol(L.crash_key(e, f"{name}:apply-crash"),
                  f"{name}.apply raised {type(e).__name__} on a random field in {MODE_NAME[mode]}: "
-                 f"{str(e).strip()[-200:]}", config=spec["desc"], tb=L.short_tb(e))
+                 f"{str(e).strip()[-200:]}", config=spec["desc"], tb=L.short_tb(e), mode=MODE_NAME[mode])
 
     # (e) documented action
     if spec.get("ref") is not None and TIMES in Ms:
